@@ -59,4 +59,18 @@ TABLE = {
         "text": "MC_Writer checks the counter placement of the code against the monitor under all histories of accepted/refused/failed writes (and shows the gap of the pinned commit in the 'old' variant). Real histories of 700 writes (two wrap-arounds) with refusals at seeded and at every position, all initialisation configurations, on streamwriter.Writer and frame.Writer.WriteMessage (and node links via the node engine) are parsed frame by frame and judged: ids, component default, compat flags, spec checksum and payload, v1 without extensions, refusal of ids above 255, sequence numbers.",
         "note": "Trusted: MavMessage/MavFrame/X25 specs. Deprecated frame.Writer is not required to validate its configuration (only the emission clauses are applied to it).",
     },
+    "C08": {
+        "engine": "stream",
+        "design_ref": "DESIGN.md section 4, C08",
+        "technique": "PRoute TLA+ monitor + IRoute model (reader normalisation, canonical re-encoding) checked by TLC on all small payloads; TLC-computed canonical and non-canonical frames routed through real Reader->Writer hops and FixFrame, validated by TLC",
+        "text": "MC_Route checks, for every payload up to 5 bytes over {0,1,2} in both versions, that the coded reader normalisation followed by canonical re-encoding forwards a frame whose checksum matches the bytes sent and that the second hop accepts it (the 'old' variant reproduces the stale checksum of the pinned commit). Spec-made frames in 10 encoding variants x ~17 (quick) / all (thorough) message types go through 1..3 real hops with and without dialect and through edit + Node.FixFrame (+ outgoing key); every hop's bytes are judged by the monitor.",
+        "note": "Trusted: MavMessage/MavFrame/X25/SHA256 specs. With a dialect, signature validity after re-encoding is only demanded after FixFrame with an outgoing key.",
+    },
+    "C20": {
+        "engine": "stream",
+        "design_ref": "DESIGN.md section 4, C20",
+        "technique": "PTlog TLA+ monitor + ITlog writer/reader model checked by TLC for all entry sequences, failure points and cut points at mini scale; real writer runs with injected write errors and real reader runs on every file prefix validated by TLC",
+        "text": "MC_Tlog explores all sequences of up to 4 encodable/unencodable entries with a transport failure after any prefix of any write and checks every cut point of every reachable file against an abstract reader (the 'old' variant shows the stray timestamp of the pinned commit). Real logs (times around microsecond boundaries, before 1970, raw and dialect frames) are written with an error at the k-th underlying write for every k and with unencodable entries; bytes after each call are compared with BE64(micros) + Marshal(frame); every byte prefix of every log is read back and must yield exactly the complete entries, then an error.",
+        "note": "Trusted: MavFrame parser, Wide 64-bit arithmetic; quick samples 10 logs (every cut of short files, every third cut of long ones).",
+    },
 }
